@@ -8,4 +8,5 @@ for p in "$@"; do
   (cd /verif && timeout 1500 ./check $p --tier quick 2>&1 | grep -E "^VIOLATION|^KNOWN|quick:" | cut -c1-300 | head -5)
 done
 git checkout -- . 
+/venv/bin/python /verif/harness/extract.py >/dev/null
 git status --short | head -3
